@@ -10,7 +10,7 @@ from spec import frames as F
 LEVEL = "exploration"
 RULE = ("DF 0..31 x {56,112} bits x address alphabet (walking one/zero, 000000, FFFFFF, letter-bearing values, seeded) "
         "x payload alphabet (zeros, ones, every single payload bit, 0x55, 0xAA, seeded) x hex case {UPPER, lower, "
-        "mIxEd}; frames built by the reference AA / AP / PI overlay encoder; the live table (Decode) fed ident / position / Comm-B of one transponder in all 27 letter-case combinations must hold one record with the Comm-B merged; thorough adds all 2^24 addresses on a "
+        "mIxEd}; frames built by the reference AA / AP / PI overlay encoder; every sequence of <= 3 (4) calls over {icao, adsb.icao, crc, crc(encode), df} on one frame string must keep returning the address; the live table (Decode) fed ident / position / Comm-B of one transponder in all 27 letter-case combinations must hold one record with the Comm-B merged; thorough adds all 2^24 addresses on a "
         "DF20 and a DF5 carrier; distinct = distinct (DF, length, address) triples")
 ASSUMPTIONS = ["frames whose length does not match their format (e.g. 112-bit DF4) are only required to give None for "
                "formats without an address; for AP formats both lengths are built with the reference overlay"]
@@ -144,6 +144,62 @@ def w_all24(arg):
     return acc.res()
 
 
+SEQ_OPS = ("icao", "crc", "crc_enc", "adsb_icao", "df")
+
+
+def run_seq(msg, addr, ops):
+    """execute the call sequence on the SAME string; every icao must return the address."""
+    exp = "%06X" % addr
+    for i, op in enumerate(ops):
+        if op == "icao":
+            r = call(pms.icao, msg)
+        elif op == "adsb_icao":
+            r = call(pms.adsb.icao, msg)
+        elif op == "crc":
+            r = call(pms.crc, msg)
+            continue
+        elif op == "crc_enc":
+            r = call(pms.crc, msg, True)
+            continue
+        else:
+            call(pms.df, msg)
+            continue
+        if r[0] != "ok" or r[1] is None or r[1].upper() != exp:
+            return "icao:result_depends_on_previous_calls", i
+    return None, None
+
+
+def spelling(h, idx):
+    letters = [i for i, c in enumerate(h) if c in "ABCDEF"]
+    if (1 << len(letters)) <= idx:
+        raise SystemExit("HARNESS-ERROR: frame %s has too few hex letters for %d isolated sequences" % (h, idx))
+    m = list(h)
+    for b, pos in enumerate(letters):
+        if (idx >> b) & 1:
+            m[pos] = m[pos].lower()
+    return "".join(m)
+
+
+def w_seq(arg):
+    import itertools
+    frames, depth = arg
+    acc = Acc()
+    for h, addr in frames:
+        idx = 0
+        for L in range(1, depth + 1):
+            for seq in itertools.product(SEQ_OPS, repeat=L):
+                if "icao" not in seq and "adsb_icao" not in seq:
+                    continue
+                idx += 1
+                m = spelling(h, idx)           # each sequence starts from a spelling never used before
+                s_, i = run_seq(m, addr, seq)
+                acc.n += L
+                if s_:
+                    acc.bad(s_, {"kind": "seq", "p": [m, addr, list(seq[:i + 1])]})
+        acc.out.add(("seq", h))
+    return acc.res()
+
+
 def judge_table(addr, c1, c2, c3):
     """ADS-B ident in case c1, ADS-B position in case c2, Comm-B in case c3, same transponder: one key, Comm-B merged."""
     from pyModeS.streamer.decode import Decode
@@ -189,6 +245,8 @@ def w_table(arg):
 def w_any(t):
     if t[0] == "t":
         return w_table(t[1])
+    if t[0] == "q":
+        return w_seq(t[1])
     return {"a": w_addr, "n": w_none, "x": w_all24}[t[0]](t[1])
 
 
@@ -196,6 +254,16 @@ def run(ctx):
     addrs = addresses(ctx.seed)
     tasks = [("a", (c, ctx.seed, True)) for i, c in enumerate(chunks(addrs, 3))] + [("n", ctx.seed)]
     tasks += [("t", c) for c in chunks([a for a in addrs if any(ch in "ABCDEF" for ch in "%06X" % a)][:24] + [0x123456], 3)]
+    sq = []
+    for df in AP_DF + AA_DF:
+        n = NATURAL[df]
+        for salt in range(1, 3000):
+            pay = (0xABCDEF * salt * 2654435761) & ((1 << (n - 29)) - 1)
+            h = build(df, n, 0xFADEBC, pay, 0)
+            if sum(c in "ABCDEF" for c in h) >= (10 if ctx.thorough else 8):
+                sq.append((h, 0xFADEBC))
+                break
+    tasks += [("q", ([f], 4 if ctx.thorough else 3)) for f in sq]
     if ctx.thorough:
         step = 1 << 15
         tasks += [("x", (lo, lo + step)) for lo in range(0, 1 << 24, step)]
@@ -206,6 +274,9 @@ def run(ctx):
 
 
 def replay(case):
+    if case["kind"] == "seq":
+        s_, _ = run_seq(case["p"][0], case["p"][1], case["p"][2])
+        return [(s_, case)] if s_ else []
     if case["kind"] == "table":
         s = judge_table(*case["p"])
         return [(s, case)] if s else []
